@@ -36,7 +36,8 @@ REQUIRED_REACH = ['CConversionBoundaryCondition.recuperateBoundaryCondition',
                   'WriteT4BoundCond.py:writeT4BoundCond']
 FAMILIES = ['planes', 'sphere', 'cylinder', 'mixed', 'dup-lower-unflagged',
             'dup-higher-unflagged', 'dup-both-flagged', 'with-tr', 'unused',
-            'only-imp0', 'macrobody', 'none']
+            'only-imp0', 'macrobody', 'none', 'in-union', 'via-complement',
+            'in-union-branch']
 _PER = {'quick': 12, 'thorough': 700}
 KIND = {'*': 'REFLECTION', '+': 'COSINUS'}
 
@@ -136,6 +137,31 @@ def build(case):
         deck.surfs.append(body)
         cells[0].geom = M.AND(M.S(-7), M.S(-50))
         deck.tags.add(f'bc.macro.{kind}')
+    if fam in ('in-union', 'via-complement', 'in-union-branch'):
+        # flagged surfaces that reach the cells they bound only through
+        # FICTIVE helper volumes (operands of UNION / INTE)
+        s10 = M.Surf(10, 'px', [rnd(rng, -1.5, -0.5)])
+        s11 = M.Surf(11, 'py', [rnd(rng, 0.5, 1.5)])
+        flag(s10)
+        if rng.random() < 0.7:
+            flag(s11)
+        deck.surfs += [s10, s11]
+        shell = M.AND(M.S(7), M.S(-8), M.S(5), M.S(-6))
+        if fam == 'in-union':
+            cells[1].geom = M.AND(M.S(7), M.S(-8), M.S(5), M.S(-6),
+                                  M.OR(M.S(-10), M.S(-11)))
+            extra = M.AND(shell, M.CELLC(2))
+        elif fam == 'via-complement':
+            cells[1].geom = M.AND(shell, M.OR(M.AND(M.S(-10), M.S(11)),
+                                              M.AND(M.S(10), M.S(-11))))
+            extra = M.AND(shell, M.CELLC(2))
+        else:
+            flag(s11)
+            cells[1].geom = M.OR(M.AND(shell, M.S(-10), M.S(5)),
+                                 M.AND(shell, M.S(10), M.S(-11)))
+            extra = M.AND(shell, M.CELLC(2))
+        deck.cells.insert(2, M.Cell(4, mat=2, rho='-2.7', geom=extra,
+                                    imp={'n': '1'}))
     if rng.random() < 0.4:
         deck.cli.append('--skip-deduplication')
     deck.surfs.sort(key=lambda s: s.id)
